@@ -1,6 +1,6 @@
 (* C01 (the "integrates to one" clause): the one-dimensional normalised Gaussian gauss1 . mu v integrates to one over R,
    GIVEN the textbook Gaussian integral  int exp(-t^2/2) dt = sqrt(2 pi)  (which Coquelicot does not provide) as a
-   hypothesis of the lemma.  Statements fixed; proofs to be completed. *)
+   hypothesis of the lemma. *)
 From Coq Require Import Reals Lra List Lia.
 From Coquelicot Require Import Coquelicot.
 From BLE Require Import Num.InstR Model.GMM Proofs.RLemmas Proofs.GMMLik.
